@@ -120,7 +120,7 @@ def to_timedelta(obj, numbers_as=None):
     if isinstance(obj, timedelta):
         return obj
     elif isinstance(obj, Number):
-        return timedelta(**{numbers_as: int(obj)})
+        return timedelta(**{numbers_as: float(obj)})
     else:
         return pd.to_timedelta(obj).to_pytimedelta()
 
